@@ -31,7 +31,7 @@ static const char letter[NU] = { 'k', 'a', 'b', 'c', 'n' };
 
 static int w;                   /* wait-hook calls so far */
 static int mid_kind, mid_user, mid_cycle;       /* 0 none, 1 connect, 2 hang-up */
-static int selftest;
+static int selftest, midcycles = 4;
 static int shutdown_sent, drains;
 static int last_served = -1;    /* for the command()-inside-one-turn check */
 static int cycle_no;            /* main cycle being evaluated (0 = set-up) */
@@ -267,8 +267,8 @@ static void body (void) {
   {
     int mk[20], mu[20], mc[20], nl = 0;
     mk[nl] = 0; mu[nl] = 0; mc[nl++] = 0;
-    for (int c = 1; c <= 4; c++) { mk[nl] = 1; mu[nl] = 4; mc[nl++] = c; }
-    for (int i = 1; i <= 3; i++) if (U[i].live) for (int c = 1; c <= 4; c++) { mk[nl] = 2; mu[nl] = i; mc[nl++] = c; }
+    for (int c = 1; c <= midcycles; c++) { mk[nl] = 1; mu[nl] = 4; mc[nl++] = c; }
+    for (int i = 1; i <= 3; i++) if (U[i].live) for (int c = 1; c <= midcycles; c++) { mk[nl] = 2; mu[nl] = i; mc[nl++] = c; }
     int c = vx_choose (nl, "mid");
     mid_kind = mk[c]; mid_user = mu[c]; mid_cycle = mc[c];
   }
@@ -296,6 +296,9 @@ int main (int argc, char **argv) {
   char mud[PATH_MAX];
   vx_init_args (argc, argv);
   selftest = (int) vx_opt_long ("selftest", 0);
+  midcycles = (int) vx_opt_long ("midcycles", 4);      /* mid-cycle connect / hang-up placed in cycles 1..midcycles */
+  if (midcycles < 0) midcycles = 0;
+  if (midcycles > 4) midcycles = 4;
   build_scripts ();
   snprintf (mud, sizeof mud, "%s/mudlib/base", hx_verif_dir ());
   hx_boot (mud, "Port 4000:telnet\n", 0);
